@@ -292,6 +292,21 @@ func (w *World) resolveTypeText(pkgPath, text string) (types.Type, error) {
 	// structural forms are resolved here so that any import of the package
 	// (in whatever file) is usable, independent of file scopes
 	switch {
+	case text == "struct{}":
+		return types.NewStruct(nil, nil), nil
+	case strings.HasPrefix(text, "map["):
+		// map[K]V with K free of brackets
+		if j := strings.Index(text, "]"); j > 0 {
+			k, err := w.resolveTypeText(pkgPath, text[4:j])
+			if err != nil {
+				return nil, err
+			}
+			v, err := w.resolveTypeText(pkgPath, text[j+1:])
+			if err != nil {
+				return nil, err
+			}
+			return types.NewMap(k, v), nil
+		}
 	case strings.HasPrefix(text, "*"):
 		t, err := w.resolveTypeText(pkgPath, text[1:])
 		if err != nil {
